@@ -26,3 +26,6 @@ register(Unit(P, "DELETE-EXACT/_commit_file_ops", cp.h_commit_file_ops("both"), 
 for u in list(units_of("C05")):
     if u.name.startswith(("GC-PREFIX", "COLLECT", "NORM-AGREE/relative", "NORM-AGREE/leading")):
         register(Unit(P, "GC/" + u.name, u.harness, functions=u.functions, replay=u.replay, reg_factory=u.reg_factory or gc.registry, z3_timeout_ms=u.z3_timeout_ms))
+
+from contracts import lemmas as _L  # noqa: E402
+register(Unit(P, "LEMMA/IMMUT", _L.h_immut, functions=[], replay=S._replay_carry, uses=_L.IMMUT_USES))
